@@ -1,0 +1,7 @@
+//go:build !verif
+
+package go_clipper2
+
+// verifOn guards the verification hooks; without the "verif" build tag every
+// hook call site is dead code.
+const verifOn = false
